@@ -125,6 +125,13 @@ var c10ResultAssigners = []string{
 	`BEGIN { (1 + 1)++; ("a" + "b")--; (-1)++; x = 1 + 1; print x }`,
 }
 
+// lookups of method names as keys (pluck, member reads, for-in over prototypes are all reads: nothing changes)
+var c10MethodNameReaders = []string{
+	`BEGIN { o = {a: 1}; p = o.pluck("length", "pluck", "a"); print p, o; q = [1].length; s = "x".upper; print o.length(), o.pluck("a") }`,
+	`{ p = $.pluck("length"); print p; print $.length() }`,
+	`BEGIN { o = {}; x = o.length; y = o["pluck"]; z = o.nosuch; print o.length(), o }`,
+}
+
 var c10BooleanVictims = []string{
 	`BEGIN { print 1 < 2, 2 < 1, 1 == 1, 1 != 1, !0, !1, "a" ~ "a", "a" !~ "a", 1 is number, 1 is string, 1 && 1, 0 || 0 }`,
 	`{ if ($.n == 0) { print "zero" } else { print "nonzero" } x = ($.n == 1); print x }`,
@@ -190,6 +197,10 @@ func c10Keys(c *Ctx, n int) []procKey {
 		add(`{ print $ } END { print "end" }`, nil, in, false)
 	}
 	// results of operators used as assignment targets: every evaluation has a result of its own
+	for _, p := range c10MethodNameReaders {
+		add(p, nil, `[{"n":0},{"n":1}]`, false)
+		keys[len(keys)-1].first = true
+	}
 	for _, p := range c10ResultAssigners {
 		add(p, nil, `[{"n":0},{"n":1}]`, false)
 	}
